@@ -66,7 +66,7 @@ fn render_with<E: DeserializeError + std::fmt::Display>(first: &First, loc: &Pat
                     let acc: Vec<ValueKind> = accepted.iter().map(|k| kind_to_deserr(*k)).collect();
                     take_cf_content(E::error::<SimValue>(
                         None,
-                        ErrorKind::IncorrectValueKind { actual: SimValue(actual.clone()).into_value(), accepted: &acc },
+                        ErrorKind::IncorrectValueKind { actual: SimValue::detached(actual.clone()).into_value(), accepted: &acc },
                         l,
                     ))
                 }
@@ -83,7 +83,7 @@ fn render_with<E: DeserializeError + std::fmt::Display>(first: &First, loc: &Pat
                 }
                 KindSnap::BadSequenceLen { actual, expected } => take_cf_content(E::error::<SimValue>(
                     None,
-                    ErrorKind::BadSequenceLen { actual: SimSeq(actual.clone()), expected: *expected },
+                    ErrorKind::BadSequenceLen { actual: SimSeq::detached(actual.clone()), expected: *expected },
                     l,
                 )),
                 KindSnap::Unexpected { msg } => {
